@@ -28,6 +28,11 @@ type StepResult struct {
 // Key is the canonical text used to compare outcomes.
 func (r StepResult) Key() string {
 	if r.Err {
+		// "message branching consumes the pending message whether or not
+		// a branch is taken": also when trying the branches fails
+		if r.Consumed {
+			return "ERR consumed"
+		}
 		return "ERR"
 	}
 	var sb strings.Builder
@@ -215,7 +220,7 @@ func considerRef(a *ASpec, n *ANode, node string, orig, cur map[string]interface
 		if b.HasPattern && b.Pattern != nil {
 			bss, err := match.Match(jsongen.Copy(b.Pattern), jsongen.Copy(against), match.Bindings(jsongen.CopyMap(cur)))
 			if err != nil {
-				return []StepResult{{Err: true, Route: "match-error"}}
+				return []StepResult{{Err: true, Consumed: consumer, Route: "match-error"}}
 			}
 			for _, c := range bss {
 				cands = append(cands, map[string]interface{}(c))
@@ -238,7 +243,7 @@ func considerRef(a *ASpec, n *ANode, node string, orig, cur map[string]interface
 			default:
 				// the code reports an error; the README describes
 				// taking one: both allowed
-				out := []StepResult{{Err: true, Route: "too-many-bindingss"}}
+				out := []StepResult{{Err: true, Consumed: consumer, Route: "too-many-bindingss"}}
 				for _, c := range cands {
 					out = append(out, take(c, "branch-multi"))
 				}
@@ -253,7 +258,7 @@ func considerRef(a *ASpec, n *ANode, node string, orig, cur map[string]interface
 			case "fail":
 				if !seen["ERR"] {
 					seen["ERR"] = true
-					out = append(out, StepResult{Err: true, Route: "guard-failed"})
+					out = append(out, StepResult{Err: true, Consumed: consumer, Route: "guard-failed"})
 				}
 			case "null":
 				// rejected
@@ -360,7 +365,7 @@ func dropErrKeys(bs map[string]interface{}) map[string]interface{} {
 // Observe turns what Spec.Step returned into a StepResult.
 func Observe(stride *core.Stride, err error, pending interface{}) StepResult {
 	if err != nil {
-		return StepResult{Err: true}
+		return StepResult{Err: true, Consumed: stride != nil && stride.Consumed != nil}
 	}
 	r := StepResult{}
 	if stride == nil {
@@ -391,7 +396,7 @@ func Observe(stride *core.Stride, err error, pending interface{}) StepResult {
 // NormalizeModel applies the same view to a model result.
 func NormalizeModel(r StepResult) StepResult {
 	if r.Err {
-		return StepResult{Err: true, Route: r.Route}
+		return StepResult{Err: true, Consumed: r.Consumed, Route: r.Route}
 	}
 	if !r.ToNil {
 		r.Bs = dropErrKeys(scrub(r.Bs))
